@@ -86,9 +86,6 @@ func runC11(e *Env) error {
 		inc += " %}"
 		// placement
 		place := rg.Intn(5)
-		if sandboxed && place >= 3 {
-			place = 0 // a sandboxed include without `only` copies only the top-level map (outside the model; see DESIGN)
-		}
 		probes := "(" + view() + ")"
 		var main string
 		reps := 1
